@@ -1,9 +1,16 @@
 // xlate_maprange — (T) tie of property C14.
 //
-// Lists every `for ... range X` statement of the generator packages (gsort/gen, genum/gen,
-// gerror/gen, gencommon; test files excluded) whose X has a map type — the statements whose
-// iteration order the Go runtime randomises — together with the enclosing function, the
-// expression as written and its type, and writes them as a Gallina list (MapRangeGen.v).
+// Lists every source of map iteration order in the generator packages (gsort/gen, genum/gen,
+// gerror/gen, gencommon; test files excluded):
+//   - every `for ... range X` statement whose X has a map type;
+//   - every call of the standard library's maps.Keys / maps.Values / maps.All (iterators over a
+//     map in its iteration order);
+//   - every call of a function or method of gtools' helper package `set` that itself ranges over
+//     a map and returns something (e.g. Set.Slice): computed, not listed by hand — the helper
+//     package is loaded too and its functions are scanned for map ranges / maps.* calls;
+//
+// together with the enclosing function, the expression as written and its type / callee, and
+// writes them as a Gallina list (MapRangeGen.v).
 // The committed tie coq/ties/Tie_C14.v states that this list is exactly the set of map ranges
 // the GenDet model accounts for; a new map range in a generator breaks the tie even when the
 // outputs of the sampled definitions happen to agree.
@@ -62,8 +69,9 @@ func main() {
 		Dir: *repo,
 		Env: append(os.Environ(), "GOFLAGS=", "GOWORK=", "GOPROXY=off", "GOSUMDB=off", "GOTOOLCHAIN=local"),
 	}
+	helpers := []string{"set"}
 	var pats []string
-	for _, p := range pkgs {
+	for _, p := range append(append([]string{}, pkgs...), helpers...) {
 		pats = append(pats, "./"+p)
 	}
 	loaded, err := packages.Load(cfg, pats...)
@@ -71,8 +79,89 @@ func main() {
 		fmt.Fprintln(os.Stderr, "load:", err)
 		os.Exit(1)
 	}
+	isMap := func(p *packages.Package, e ast.Expr) (types.Type, bool) {
+		t := p.TypesInfo.TypeOf(e)
+		if t == nil {
+			return nil, false
+		}
+		_, ok := t.Underlying().(*types.Map)
+		return t, ok
+	}
+	// callee of a call expression (generic instantiations reduced to their origin)
+	calleeOf := func(p *packages.Package, call *ast.CallExpr) *types.Func {
+		var id *ast.Ident
+		switch f := ast.Unparen(call.Fun).(type) {
+		case *ast.Ident:
+			id = f
+		case *ast.SelectorExpr:
+			id = f.Sel
+		case *ast.IndexExpr:
+			switch g := ast.Unparen(f.X).(type) {
+			case *ast.Ident:
+				id = g
+			case *ast.SelectorExpr:
+				id = g.Sel
+			}
+		}
+		if id == nil {
+			return nil
+		}
+		if fn, ok := p.TypesInfo.Uses[id].(*types.Func); ok {
+			return fn.Origin()
+		}
+		return nil
+	}
+	isMapsIter := func(fn *types.Func) bool {
+		return fn != nil && fn.Pkg() != nil && fn.Pkg().Path() == "maps" &&
+			(fn.Name() == "Keys" || fn.Name() == "Values" || fn.Name() == "All")
+	}
+	isHelper := func(path string) bool {
+		for _, h := range helpers {
+			if strings.HasSuffix(path, "/gtools/"+h) {
+				return true
+			}
+		}
+		return false
+	}
+	// pass 1: functions of the helper packages that iterate a map and return something
+	orderSource := map[string]bool{}
+	for _, p := range loaded {
+		if !isHelper(p.PkgPath) {
+			continue
+		}
+		for _, f := range p.Syntax {
+			for _, decl := range f.Decls {
+				fd, ok := decl.(*ast.FuncDecl)
+				if !ok || fd.Body == nil || fd.Type.Results == nil || len(fd.Type.Results.List) == 0 {
+					continue
+				}
+				iterates := false
+				ast.Inspect(fd.Body, func(n ast.Node) bool {
+					switch x := n.(type) {
+					case *ast.RangeStmt:
+						if _, ok := isMap(p, x.X); ok {
+							iterates = true
+						}
+					case *ast.CallExpr:
+						if isMapsIter(calleeOf(p, x)) {
+							iterates = true
+						}
+					}
+					return true
+				})
+				if iterates {
+					if fn, ok := p.TypesInfo.Defs[fd.Name].(*types.Func); ok {
+						orderSource[fn.FullName()] = true
+					}
+				}
+			}
+		}
+	}
 	var rows []row
 	for _, p := range loaded {
+		if isHelper(p.PkgPath) {
+			continue
+		}
 		short := p.PkgPath
 		if k := strings.Index(short, "/gtools/"); k >= 0 {
 			short = short[k+len("/gtools/"):]
@@ -81,6 +170,7 @@ func main() {
 			fmt.Fprintln(os.Stderr, "package", p.PkgPath, "has errors:", p.Errors[0])
 			os.Exit(1)
 		}
+		qual := func(q *types.Package) string { return q.Name() }
 		for i, f := range p.Syntax {
 			file := filepath.Base(p.CompiledGoFiles[i])
 			if strings.HasSuffix(file, "_test.go") {
@@ -92,18 +182,18 @@ func main() {
 					continue
 				}
 				ast.Inspect(fd.Body, func(n ast.Node) bool {
-					rs, ok := n.(*ast.RangeStmt)
-					if !ok {
-						return true
-					}
-					t := p.TypesInfo.TypeOf(rs.X)
-					if t == nil {
-						return true
-					}
-					if _, isMap := t.Underlying().(*types.Map); isMap {
-						rows = append(rows, row{short, file, recvName(fd), types.ExprString(rs.X),
-							types.TypeString(t.Underlying(), func(q *types.Package) string { return q.Name() }),
-							int(rs.Pos())})
+					switch x := n.(type) {
+					case *ast.RangeStmt:
+						if t, ok := isMap(p, x.X); ok {
+							rows = append(rows, row{short, file, recvName(fd), types.ExprString(x.X),
+								types.TypeString(t.Underlying(), qual), int(x.Pos())})
+						}
+					case *ast.CallExpr:
+						fn := calleeOf(p, x)
+						if isMapsIter(fn) || (fn != nil && orderSource[fn.FullName()]) {
+							rows = append(rows, row{short, file, recvName(fd), "call " + types.ExprString(x.Fun),
+								fn.FullName(), int(x.Pos())})
+						}
 					}
 					return true
 				})
@@ -121,8 +211,10 @@ func main() {
 	})
 	var b strings.Builder
 	b.WriteString("(* MapRangeGen.v — regenerated by harness/cmd/xlate_maprange on every run of ./check C14.\n" +
-		"   One row per `range` over a map-typed expression in the generator packages:\n" +
-		"   (package, file, enclosing function, ranged expression, its map type). *)\n")
+		"   One row per source of map iteration order in the generator packages: a `range` over a\n" +
+		"   map-typed expression (package, file, enclosing function, ranged expression, its map type)\n" +
+		"   or a call of maps.Keys/Values/All or of a map-iterating function of gtools/set\n" +
+		"   (package, file, enclosing function, \"call <fun>\", callee). *)\n")
 	b.WriteString("From Coq Require Import List String.\nImport ListNotations.\n\n")
 	b.WriteString("Definition gen_map_ranges : list (string * string * string * string * string) := [\n")
 	for i, r := range rows {
